@@ -109,7 +109,7 @@ class FuncScan:
             if isinstance(n, ast.Call) and isinstance(n.func, ast.Name) and n.func.id == "isinstance" and len(n.args) == 2 \
                     and isinstance(n.args[0], ast.Name):
                 cs = n.args[1].elts if isinstance(n.args[1], ast.Tuple) else [n.args[1]]
-                names = {c.id if isinstance(c, ast.Name) else getattr(c, "attr", None) for c in cs}
+                names = {c.id for c in cs if isinstance(c, ast.Name)}
                 if names & self.fclasses:
                     self.fieldish.add(n.args[0].id)
         self.tainted -= {p for p in self.fieldish if p in params}   # the Field object itself is not per-call data
@@ -216,14 +216,14 @@ def scan(repo=None):
                                                and v.func.id in ("dict", "defaultdict", "OrderedDict")):
                     module_dicts.add(n.targets[0].id)
 
-        def visit(body, cls):
+        def visit(body, cls, cls_node=None):
             for n in body:
                 if isinstance(n, ast.ClassDef):
-                    visit(n.body, n.name)
+                    visit(n.body, n.name, n)
                 elif isinstance(n, (ast.FunctionDef, ast.AsyncFunctionDef)):
-                    scan_fn(n, cls)
+                    scan_fn(n, cls, cls_node)
 
-        def scan_fn(fn, cls):
+        def scan_fn(fn, cls, cls_node=None):
             if fn.name in DEFINITION_TIME:
                 return
             qual = f"{cls}.{fn.name}" if cls else fn.name
@@ -276,7 +276,14 @@ def scan(repo=None):
                     elif isinstance(m, ast.Attribute) and isinstance(m.ctx, ast.Load) and m.attr == attr \
                             and ast.unparse(m.value) == tgt_s and tgt_s != "self":
                         read_back = True
-                if tgt_s == "self":
+                if tgt_s == "self" and cls_node is not None:
+                    # another method of the class reads the attribute back (e.g. _validate() leaves it, __set__ uses it)
+                    read_back = read_back or any(
+                        isinstance(m, ast.Attribute) and isinstance(m.ctx, ast.Load) and m.attr == attr
+                        and isinstance(m.value, ast.Name) and m.value.id == "self"
+                        for g in cls_node.body if isinstance(g, (ast.FunctionDef, ast.AsyncFunctionDef)) and g is not fn
+                        for m in ast.walk(g))
+                if tgt_s == "self" and not read_back:
                     read_back = any(isinstance(m, ast.Attribute) and isinstance(m.ctx, ast.Load) and m.attr == attr
                                     and ast.unparse(m.value) == "self" for m in ast.walk(fn)) or \
                         any(isinstance(m, ast.Call) and isinstance(m.func, ast.Name) and m.func.id == "getattr"
@@ -290,7 +297,60 @@ def scan(repo=None):
         visit(tree.body, None)
     for path, tree in trees.items():
         rows.extend(scan_containers(tree, os.path.relpath(path, repo)))
+    rows.extend(scan_mode_toggles(trees, repo))
     rows.sort(key=lambda r: (r["path"], r["line"]))
+    return rows
+
+
+def scan_mode_toggles(trees, repo):
+    """process-wide MODE flags flipped while an operation runs: class-level attributes of typedpy classes
+    (Structure._fail_fast, TypedPyDefaults.*) are configuration; a function that is not itself a pure setter and assigns
+    one, or calls a pure setter (Structure.set_fail_fast(..)), changes the behaviour of every other thread for the
+    duration (and interleaved save / restore can leave the wrong mode behind)."""
+    class_names = set()
+    for tree in trees.values():
+        class_names |= {n.name for n in ast.walk(tree) if isinstance(n, ast.ClassDef)}
+
+    def class_attr_writes(fn):
+        out = []
+        for n in ast.walk(fn):
+            if isinstance(n, (ast.Assign, ast.AugAssign, ast.AnnAssign)):
+                for t in (n.targets if isinstance(n, ast.Assign) else [n.target]):
+                    if isinstance(t, ast.Attribute) and isinstance(t.value, ast.Name) and \
+                            (t.value.id in class_names or t.value.id == "cls"):
+                        out.append((n.lineno, f"{t.value.id}.{t.attr}"))
+        return out
+
+    def is_pure_setter(fn):
+        body = [st for st in fn.body if not (isinstance(st, ast.Expr) and isinstance(st.value, ast.Constant))]
+        return bool(body) and all(isinstance(st, (ast.Assign, ast.AnnAssign, ast.Return, ast.Pass)) for st in body) \
+            and bool(class_attr_writes(fn))
+
+    setters = set()
+    fns = []
+    for path, tree in trees.items():
+        for q, f in _all_functions(tree):
+            fns.append((path, q, f))
+            if is_pure_setter(f):
+                setters.add(f.name)
+    rows = []
+    for path, q, f in fns:
+        if f.name in DEFINITION_TIME or f.name in setters or is_pure_setter(f):
+            continue
+        rel = os.path.relpath(path, repo)
+        hits = [(ln, w) for ln, w in class_attr_writes(f) if not w.startswith("cls.")]
+        for n in ast.walk(f):
+            if isinstance(n, ast.Call) and isinstance(n.func, ast.Attribute) and n.func.attr in setters \
+                    and isinstance(n.func.value, ast.Name) and n.func.value.id in class_names | {"cls", "self"}:
+                hits.append((n.lineno, f"{n.func.value.id}.{n.func.attr}()"))
+        seen = set()
+        for ln, w in sorted(hits):
+            if w in seen:
+                continue
+            seen.add(w)
+            rows.append({"path": rel, "file": os.path.basename(rel), "func": q, "attr": w.rstrip("()").split(".", 1)[1],
+                         "target": w, "valueKind": "modeToggle", "readBack": True, "line": ln, "events": {},
+                         "first_line": _first_line(f), "last_line": f.end_lineno})
     return rows
 
 
